@@ -1,5 +1,4 @@
 SPECIFICATION TSpec
 CONSTRAINT HighWater
-INVARIANTS FreeDisjoint NoFreeVisible NoMeta
 POSTCONDITION Accepted
 CHECK_DEADLOCK FALSE
